@@ -28,6 +28,9 @@ DES_MIRROR = {'FirstAddRoundKey': 'LastAddRoundKey', 'LastAddRoundKey': 'FirstAd
               'FeistelRLastRounds': 'FeistelRFirstRounds', 'DeltaRFirstRounds': 'DeltaRLastRounds', 'DeltaRLastRounds': 'DeltaRFirstRounds'}
 
 
+SHARED = {}
+
+
 def uses_ct(fn):
     return fn.startswith('Last') or fn.endswith('LastRounds')
 
@@ -117,6 +120,13 @@ def check_fn(chk, cipher, fn, ns, inputs, tabs_idx, tabs, key, exp_key, targets,
         chk.violation(f'{cipher}.{ns}.{fn}:custom tags are accepted', dict(ctx, property='C07', error=repr(ex)[:200]), f'{cipher}.{ns}.{fn}: {ex!r}'[:200])
     # expected key and true-key column
     if exp_key is not None:
+        # one long-lived selection-function object per function serves every key of the run (an object is not tied to the first key it saw)
+        shared = SHARED.setdefault((cipher, ns, fn), cls())
+        eks = np.asarray(shared.compute_expected_key(key=np.array(key, dtype='uint8')))
+        chk.count((gi, cipher, ns, fn, 'expected_key(shared object)'), nontrivial=True)
+        if eks.tolist() != exp_key:
+            chk.violation(f'{cipher}.{ns}.{fn}:compute_expected_key returns the round key the function targets', dict(ctx, property='C07', got=eks.tolist(), expected=exp_key, note='object already used with another key'),
+                          f'{cipher}.{ns}.{fn}: expected key differs when the selection-function object was used with another key before')
         ek = np.asarray(sf.compute_expected_key(key=np.array(key, dtype='uint8')))
         chk.count((gi, cipher, ns, fn, 'expected_key'), nontrivial=True)
         if ek.tolist() != exp_key:
